@@ -182,13 +182,7 @@ func checkC14(e *Engine, r *Report) {
 					ok = false
 				}
 			}
-			okErr := false
-			for _, g := range errNilGuards(ib, func(c *ssa.Call) bool { return ssa.CallInstruction(c) == w }) {
-				if failEdgeReturnsError(ib, g, nil) {
-					okErr = true
-				}
-			}
-			ok = ok && okErr
+			ok = ok && errorPropagated(ib, w, nil)
 			for _, ret := range successReturns(ib) {
 				if !passesThrough(ib, ret, w) {
 					ok = false
@@ -225,14 +219,7 @@ func checkC14(e *Engine, r *Report) {
 				}
 			}
 			for _, s := range sets {
-				ss := s
-				okE := false
-				for _, g := range errNilGuards(st, func(c *ssa.Call) bool { return ssa.CallInstruction(c) == ss }) {
-					if failEdgeReturnsError(st, g, nil) {
-						okE = true
-					}
-				}
-				if !okE {
+				if !errorPropagated(st, s, nil) {
 					okS = false
 				}
 			}
